@@ -303,8 +303,19 @@ class C15(vlib.Driver):
             return ag_level.oracle(case, obs)
         out = []
         lead = case.get("lead", [])
-        if case["kind"] in ("prep_mis", "addbatch"):
+        if case["kind"] == "prep_mis":
             return out                                       # K only
+        if case["kind"] == "addbatch":
+            shape, ss = case["shape"], case["sshape"]
+            k = len(shape) - len(ss)
+            if 0 <= k <= 2 and shape[k:] == ss:              # lead ++ space shape with at most two leading dimensions
+                want = [int(np.prod(shape[:k])) if k else 1] + ss
+                n = int(np.prod(shape)) if shape else 1
+                data = (np.arange(n, dtype=np.float32) - 3).tolist()
+                if "err" in obs or obs["ok"]["shape"] != want or obs["ok"]["data"] != data or not obs.get("type_kept", True):
+                    out.append(Violation("batch-dim", f"addbatch:{case['input']}",
+                                         f"maybe_add_batch_dim({case['input']} of shape {shape}, {ss}) -> {obs.get('ok', obs)}; expected shape {want}, data and array type unchanged"[:400]))
+            return out
         if case["kind"] == "norm":
             sp = case["space"]
             arr = leaf_array(sp, lead, case["pat"]).astype(np.float64)
